@@ -429,6 +429,18 @@ def obligations(tier):
                 wall_s=wall,
             )
         )
+    # the retry budget END TO END: the real ThreadsExecutor entry on a real plan with only the worker pool replaced (harness/execwire.py)
+    from harness import c07, execwire
+
+    for mode, dn, opt, n_o, n_d, n_p, mr in ([("threads", "chain-unequal", 0, 30, 40, 10, 1)] if tier == "quick" else [("threads", dn, o_, 40, 60, 12, 2) for dn in ("chain-unequal", "diamond") for o_ in (0, 1)]):
+        vs = c07.vars_(n_o, n_d, n_p) + [("par", 0, 2), ("batch", 0, 2), ("retries", 0, 3), ("kfail", 0, 4)]
+        obls.append(Obl(f"executor-retry-budget[{mode},{dn},optimize={opt}]", execwire.make(mode, dn, opt, n_o, n_d, n_p, mr), vs, setup=c07.setup,
+                        functions=[crl.ThreadsExecutor._async_execute_dag, crl.threads_create_futures_func, crl.run_func_threads, cra.async_map_dag, cra.async_map_unordered],
+                        wall_s=wall,
+                        bounds=f"real threads executor entry on plan '{dn}': retries 0..3 passed as an executor option, every stage call failing 0..4 times before it succeeds; "
+                               "attempts == min(k+1, retries+1) and success iff k <= retries, for every compute_arrays_in_parallel / batch_size setting and schedule in the bound",
+                        outside="the worker pool itself (StubPool); processes executor has no retry wrapper (by design)", stubs=["StubPool", "sched.*"],
+                        witness_rule=lambda m: m.get("kfail", 0) >= 1))
     rmax, kmax = (3, 5) if tier == "quick" else (6, 9)
     obls.append(
         Obl(
